@@ -119,7 +119,9 @@ func VerifC03Volume() {
 // VerifC03VolumeTokens: specs assembled from the grammar's vocabulary (path prefixes, separators, modes, a drive, a
 // hidden file name, non-ASCII names).
 func VerifC03VolumeTokens() {
-	dict := []string{".", "..", "/", "~", ":", ",", "ro", "rw", "z", "Z", "nocopy", "rshared", "a", "C", "\\", ".env", "v1", "\u00e9", "\u65e5", "data"}
+	dict := []string{".", "..", "/", "~", ":", ",", "ro", "rw", "z", "Z", "nocopy", "rshared", "a", "C", "\\", ".env", "v1", "\u00e9", "\u65e5", "data",
+		// phrases, so that a full source:target:options spec is within three tokens
+		":/t", ":/t:"}
 	n := 1 + vrtChoice("tokens", vrtParam("TOK", 4))
 	spec := ""
 	for k := 0; k < n; k++ {
